@@ -28,118 +28,163 @@
 (*   candidates           the modules the environment may ask for in this run                    *)
 (*                                                                                               *)
 (* State: loaded (sys.modules minus boot), bound (submodules bound on their parent, minus boot), *)
+(* order (the ioflo modules entered into sys.modules by the current import, in that order),      *)
 (* stack (modules whose body is running, with the index of the current statement), req (the      *)
-(* top-level imports asked so far), res (outcome of the last one).                               *)
+(* top-level imports asked so far), res / why (outcome of the last one).                         *)
+(*                                                                                               *)
+(* One step of the interpreter is the function StepOf on the record of these variables; the      *)
+(* small-step actions Start / LoadExt / Finish / Done / Fail apply it once (what an observer of  *)
+(* sys.modules can distinguish); with Atomic = TRUE a whole top-level import is one action       *)
+(* (StepOf iterated until the import returns) so that all orders of several imports fit in TLC.  *)
 EXTENDS Integers, Sequences, FiniteSets, SequencesExt, TLC, Json, IOUtils
 
-CONSTANTS MaxImports
+CONSTANTS MaxImports,    \* how many top-level imports the host performs
+          Atomic         \* TRUE: a top-level import is a single action
 
 D == JsonDeserialize(IOEnv.IMPORTS_JSON)
 Module == ToSet(D.mods)
+TopLevel == ToSet(D.toplevel)
 Candidates == ToSet(D.candidates)
-TopLevel == ToSet(D.toplevel)     \* modules without a parent package: nothing to bind them on
 Ext == ToSet(D.ext)
 Boot == ToSet(D.boot)
 BootBound == ToSet(D.bootbound)
 Body(m) == D.body[m]
 Clo(x) == ToSet(D.clo[x])
 CloBound(x) == ToSet(D.clobound[x])
+MaxSteps == 2 * (Cardinality(Module) + Cardinality(Ext)) + 4    \* no import takes more steps than that
 
-VARIABLES loaded, bound, stack, req, res, why
-vars == <<loaded, bound, stack, req, res, why>>
+VARIABLES loaded, bound, order, stack, req, res, why
+vars == <<loaded, bound, order, stack, req, res, why>>
 
 Req == "<request>"    \* pseudo module at the bottom of the stack: the statement `import m` typed by the host
-MinOf(S) == CHOOSE i \in S : \A j \in S : i <= j
 
-\* statements of a frame
+--------------------------------------------------------------------------------
+\* the interpreter as a function on records s = [loaded, bound, order, stack, res, why]; rq = requests so far
+
 Stmts(f, rq) == IF f.m = Req
                 THEN <<[k |-> "load", chain |-> D.chain[rq[Len(rq)]], mod |-> "", name |-> "", at |-> 0, why |-> "", tp |-> FALSE]>>
                 ELSE Body(f.m)
 
 IsLoaded(x, ld) == x \in ld \/ x \in Boot
 IsBound(x, bd) == x \in bd \/ x \in BootBound
-FirstUnloaded(chain, ld) == LET I == {i \in DOMAIN chain : ~IsLoaded(chain[i], ld)} IN IF I = {} THEN 0 ELSE MinOf(I)
+
+RECURSIVE FirstUnloaded(_, _, _)
+FirstUnloaded(chain, i, ld) == IF i > Len(chain) THEN 0 ELSE IF ~IsLoaded(chain[i], ld) THEN i ELSE FirstUnloaded(chain, i + 1, ld)
+RECURSIVE FirstUnbound(_, _, _)
+FirstUnbound(chain, i, bd) == IF i > Len(chain) THEN 0 ELSE IF ~IsBound(chain[i], bd) THEN i ELSE FirstUnbound(chain, i + 1, bd)
 
 \* `from P import n`: fine when P has finished, or has got past the statement that defines n
-PcOf(p, stk) == LET F == {i \in DOMAIN stk : stk[i].m = p} IN IF F = {} THEN 0 ELSE stk[MinOf(F)].pc
-Defined(st, stk) == st.at >= 0 /\ (PcOf(st.mod, stk) = 0 \/ PcOf(st.mod, stk) > st.at)
+RECURSIVE PcOf(_, _, _)
+PcOf(p, stk, i) == IF i > Len(stk) THEN 0 ELSE IF stk[i].m = p THEN stk[i].pc ELSE PcOf(p, stk, i + 1)
+Defined(st, stk) == st.at >= 0 /\ (LET pc == PcOf(st.mod, stk, 1) IN pc = 0 \/ pc > st.at)
 
 \* does statement st do anything (load something, or raise) in the given state?
 Effective(st, ld, bd, stk) ==
-    CASE st.k = "load" -> FirstUnloaded(st.chain, ld) # 0
-      [] st.k = "use"  -> \E i \in DOMAIN st.chain : ~IsBound(st.chain[i], bd)
+    CASE st.k = "load" -> FirstUnloaded(st.chain, 1, ld) # 0
+      [] st.k = "use"  -> FirstUnbound(st.chain, 1, bd) # 0
       [] st.k = "from" -> ~Defined(st, stk)
       [] OTHER         -> TRUE
 
 \* statements without effect are passed over: the program counter of the running body always rests on the next
 \* statement that loads or raises, or behind the last statement
+RECURSIVE NextEffective(_, _, _, _, _)
+NextEffective(ss, i, ld, bd, stk) ==
+    IF i > Len(ss) THEN i ELSE IF Effective(ss[i], ld, bd, stk) THEN i ELSE NextEffective(ss, i + 1, ld, bd, stk)
+
 Settle(stk, ld, bd, rq) ==
     IF stk = <<>> THEN stk
-    ELSE LET n == Len(stk)
-             f == stk[n]
-             ss == Stmts(f, rq)
-             I == {i \in f.pc..Len(ss) : Effective(ss[i], ld, bd, stk)}
-             pc == IF I = {} THEN Len(ss) + 1 ELSE MinOf(I)
-         IN [stk EXCEPT ![n].pc = pc]
+    ELSE LET n == Len(stk) IN [stk EXCEPT ![n].pc = NextEffective(Stmts(stk[n], rq), stk[n].pc, ld, bd, stk)]
 
-Top == stack[Len(stack)]
-TopStmts == Stmts(Top, req)
-Running == stack # <<>> /\ Top.pc <= Len(TopStmts)
-Cur == TopStmts[Top.pc]
-NextToLoad == Cur.chain[FirstUnloaded(Cur.chain, loaded)]
+Quiet(s) == s.stack = <<>>
+TopOf(s) == s.stack[Len(s.stack)]
+Ended(s, rq) == TopOf(s).pc > Len(Stmts(TopOf(s), rq))
+CurOf(s, rq) == Stmts(TopOf(s), rq)[TopOf(s).pc]
+NextToLoad(s, rq) == LET c == CurOf(s, rq).chain IN c[FirstUnloaded(c, 1, s.loaded)]
 
-Init == /\ loaded = {} /\ bound = {} /\ stack = <<>> /\ req = <<>> /\ res = "" /\ why = ""
+\* what happens next, and to which module
+Kind(s, rq) == IF Ended(s, rq) THEN (IF TopOf(s).m = Req THEN "Done" ELSE "Finish")
+               ELSE IF CurOf(s, rq).k = "load" THEN (IF NextToLoad(s, rq) \in Module THEN "Start" ELSE "LoadExt")
+               ELSE "Fail"
+Subject(s, rq) == IF Ended(s, rq) THEN TopOf(s).m ELSE IF CurOf(s, rq).k = "load" THEN NextToLoad(s, rq) ELSE TopOf(s).m
+
+StepOf(s, rq) ==
+    LET f == TopOf(s)
+        ss == Stmts(f, rq)
+        ended == f.pc > Len(ss)
+        cur == ss[f.pc]
+        x == IF ended THEN f.m ELSE IF cur.k = "load" THEN cur.chain[FirstUnloaded(cur.chain, 1, s.loaded)] ELSE f.m
+    IN IF ended THEN
+           IF x = Req THEN
+               \* Done: the requested import is complete
+               [s EXCEPT !.stack = <<>>, !.res = "ok"]
+           ELSE
+               \* Finish: the body of x has run to its end: x is bound on its parent, the importer continues
+               LET bd == IF x \in TopLevel THEN s.bound ELSE s.bound \cup {x} IN
+               [s EXCEPT !.bound = bd, !.stack = Settle(SubSeq(s.stack, 1, Len(s.stack) - 1), s.loaded, bd, rq)]
+       ELSE IF cur.k = "load" THEN
+           IF x \in Module THEN
+               \* Start: an ioflo module starts loading: entered into sys.modules, then its body begins
+               LET ld == s.loaded \cup {x} IN
+               [s EXCEPT !.loaded = ld, !.order = Append(@, x), !.stack = Settle(Append(s.stack, [m |-> x, pc |-> 1]), ld, s.bound, rq)]
+           ELSE
+               \* LoadExt: a non-ioflo module is imported: everything it loads and binds arrives at once
+               LET ld == s.loaded \cup Clo(x)
+                   bd == s.bound \cup CloBound(x) IN
+               [s EXCEPT !.loaded = ld, !.bound = bd, !.stack = Settle(s.stack, ld, bd, rq)]
+       ELSE
+           \* Fail: the current statement raises: the exception unwinds every running body
+           [s EXCEPT !.stack = <<>>,
+                     !.res = IF cur.k = "fail" /\ cur.tp THEN "skip" ELSE "fail",
+                     !.why = CASE cur.k = "use" -> "AttributeError: submodule not bound: " \o cur.chain[FirstUnbound(cur.chain, 1, s.bound)]
+                               [] cur.k = "from" -> "ImportError: cannot import name " \o cur.name \o " from " \o cur.mod
+                               [] OTHER -> cur.why]
+
+\* the host asks for module m (rq already ends with m)
+Ask(s, rq) == [s EXCEPT !.stack = Settle(<<[m |-> Req, pc |-> 1]>>, s.loaded, s.bound, rq), !.order = <<>>, !.res = "", !.why = ""]
+
+\* a whole import: steps until it returns or raises
+RunOf(s, rq) == FoldLeft(LAMBDA acc, i : IF Quiet(acc) THEN acc ELSE StepOf(acc, rq), s, [i \in 1..MaxSteps |-> i])
+
+--------------------------------------------------------------------------------
+St == [loaded |-> loaded, bound |-> bound, order |-> order, stack |-> stack, res |-> res, why |-> why]
+Becomes(s) == /\ loaded' = s.loaded /\ bound' = s.bound /\ order' = s.order
+              /\ stack' = s.stack /\ res' = s.res /\ why' = s.why
+
+Init == /\ loaded = {} /\ bound = {} /\ order = <<>> /\ stack = <<>> /\ req = <<>> /\ res = "" /\ why = ""
+
+MayAsk(m) == /\ stack = <<>> /\ res \in {"", "ok"} /\ Len(req) < MaxImports
+             /\ m \in Candidates /\ m \notin ToSet(req)
 
 \* the host program asks for a module
-Import(m) ==
-    /\ stack = <<>> /\ res \in {"", "ok"} /\ Len(req) < MaxImports
-    /\ m \in Candidates /\ m \notin ToSet(req)
-    /\ req' = Append(req, m)
-    /\ stack' = Settle(<<[m |-> Req, pc |-> 1]>>, loaded, bound, req')
-    /\ res' = "" /\ why' = ""
-    /\ UNCHANGED <<loaded, bound>>
+Import(m) == /\ ~Atomic /\ MayAsk(m)
+             /\ req' = Append(req, m)
+             /\ Becomes(Ask(St, req'))
 
-\* an ioflo module starts loading: entered into sys.modules, then its body begins
-Start(x) ==
-    /\ Running /\ Cur.k = "load" /\ x = NextToLoad /\ x \in Module
-    /\ loaded' = loaded \cup {x}
-    /\ stack' = Settle(Append(stack, [m |-> x, pc |-> 1]), loaded', bound, req)
-    /\ UNCHANGED <<bound, req, res, why>>
+\* (Moving only narrows the quantifiers to the one module that can move: the body on top of the stack)
+Moving == IF Quiet(St) THEN {} ELSE {Subject(St, req)}
 
-\* a non-ioflo module is imported: everything it loads and binds arrives at once
-LoadExt(x) ==
-    /\ Running /\ Cur.k = "load" /\ x = NextToLoad /\ x \in Ext
-    /\ loaded' = loaded \cup Clo(x)
-    /\ bound' = bound \cup CloBound(x)
-    /\ stack' = Settle(stack, loaded', bound', req)
-    /\ UNCHANGED <<req, res, why>>
+Micro(kind, x) == /\ ~Quiet(St) /\ Kind(St, req) = kind /\ Subject(St, req) = x
+                  /\ Becomes(StepOf(St, req))
+                  /\ UNCHANGED req
+StartOf(x) == Micro("Start", x)
+LoadExtOf(x) == Micro("LoadExt", x)
+FinishOf(x) == Micro("Finish", x)
+Start == \E x \in Moving \cap Module : StartOf(x)
+LoadExt == \E x \in Moving \cap Ext : LoadExtOf(x)
+Finish == \E x \in Moving \cap Module : FinishOf(x)
+Done == ~Quiet(St) /\ Micro("Done", Req)
+Fail == \E x \in Moving \cap Module : Micro("Fail", x)
 
-\* the body of x has run to its end: x is bound on its parent, the importer continues
-Finish(x) ==
-    /\ stack # <<>> /\ ~Running /\ Top.m = x /\ x # Req
-    /\ bound' = (IF x \in TopLevel THEN bound ELSE bound \cup {x})
-    /\ stack' = Settle(SubSeq(stack, 1, Len(stack) - 1), loaded, bound', req)
-    /\ UNCHANGED <<loaded, req, res, why>>
-
-\* the requested import is complete
-Done ==
-    /\ stack # <<>> /\ ~Running /\ Top.m = Req
-    /\ stack' = <<>> /\ res' = "ok"
-    /\ UNCHANGED <<loaded, bound, req, why>>
-
-\* the current statement raises: the exception unwinds every running body
-Fail ==
-    /\ Running /\ Cur.k # "load"
-    /\ stack' = <<>>
-    /\ why' = (CASE Cur.k = "use" -> "AttributeError: submodule not bound: " \o Cur.chain[MinOf({i \in DOMAIN Cur.chain : ~IsBound(Cur.chain[i], bound)})]
-                 [] Cur.k = "from" -> "ImportError: cannot import name " \o Cur.name \o " from " \o Cur.mod
-                 [] OTHER -> Cur.why)
-    /\ res' = (IF Cur.k = "fail" /\ Cur.tp THEN "skip" ELSE "fail")
-    /\ UNCHANGED <<loaded, bound, req>>
+\* ... or the whole import at once
+ImportAll(m) == /\ Atomic /\ MayAsk(m)
+                /\ req' = Append(req, m)
+                /\ Becomes(RunOf(Ask(St, req'), req'))
 
 Next == \/ \E m \in Candidates : Import(m)
-        \/ \E x \in Module : Start(x) \/ Finish(x)
-        \/ \E x \in Ext : LoadExt(x)
+        \/ \E m \in Candidates : ImportAll(m)
+        \/ Start
+        \/ LoadExt
+        \/ Finish
         \/ Done
         \/ Fail
 
@@ -163,9 +208,12 @@ WellFormed ==
     /\ \A i \in DOMAIN stack : stack[i].m = Req <=> i = 1
     /\ \A i \in DOMAIN stack : i > 1 => stack[i].m \in loaded
     /\ \A x \in bound \cap Module : x \in loaded /\ \A i \in DOMAIN stack : stack[i].m # x
+    /\ \A i \in DOMAIN order : order[i] \in loaded
+    /\ stack # <<>> => res = ""
 
 \* the Boot --Import(m)--> edges are written out for the harness to replay in bare interpreters (binding A)
 Emit == (stack = <<>> /\ Len(req) = 1 /\ res # "") =>
             JsonSerialize(IOEnv.EDGE_DIR \o "/" \o req[1] \o ".json",
-                          [m |-> req[1], res |-> res, why |-> why, loaded |-> SetToSeq(loaded), bound |-> SetToSeq(bound)])
+                          [m |-> req[1], res |-> res, why |-> why, order |-> order,
+                           loaded |-> SetToSeq(loaded), bound |-> SetToSeq(bound)])
 =============================================================================
